@@ -50,6 +50,15 @@ def handle (op : String) (args : List String) : Option String :=
         let xs := resampleXs Float.ofNat lo hi k
         pure (Out.join [Out.list Out.f xs, Out.list (fun x => Out.optF (interp s x)) xs])
       | _, _ => failure).run args
+  | "series.resample_x" => (do
+      -- `resampled_x`: the count is ceil(1 + span / spacing) (saturating cast), then `resampled_n`
+      let s ← ser; let sp ← f
+      match s.xs.head?, s.xs.getLast? with
+      | some lo, some hi =>
+        let k := (Float.ceil (1.0 + (hi - lo) / sp)).toUInt64.toNat
+        let xs := resampleXs Float.ofNat lo hi k
+        pure (Out.join [Out.list Out.f xs, Out.list (fun x => Out.optF (interp s x)) xs])
+      | _, _ => failure).run args
   | _ => none
 
 end DrvC17
